@@ -3,8 +3,13 @@ package h
 import (
 	"encoding/json"
 	"fmt"
+	"math/big"
 	"math/rand"
 	"sort"
+
+	"github.com/Factom-Asset-Tokens/factom"
+
+	"pegsim/model"
 
 	"pegsim/sim"
 	"pegsim/world"
@@ -154,6 +159,12 @@ func (checkC09) Run(env *Env, sc *Scenario) (*Violation, error) {
 			}
 			r := sim.NewReplica(w, dir)
 			r.Follow, r.PerHeight = true, true
+			balAt := map[uint32]map[factom.FAAddress]map[int]*big.Int{}
+			r.OnCommit = func(hc uint32) {
+				if b, err := dbBalances(r.RO()); err == nil {
+					balAt[hc] = b
+				}
+			}
 			if err := r.Start(); err != nil {
 				viol = &Violation{Prop: "C09", Oracle: "restart", Signature: "restart refused", Detail: fmt.Sprintf("restart at %d: %v", h, err)}
 				break
@@ -187,7 +198,14 @@ func (checkC09) Run(env *Env, sc *Scenario) (*Violation, error) {
 			}
 			if hh, msg := compareHeights(ref, r.Heights); msg != "" {
 				violAt = h
-				viol = &Violation{Prop: "C09", Oracle: "restart-equals-continuous", Signature: "ledger differs after restart: " + msg,
+				sig := "ledger differs after restart: " + msg
+				// Is the difference exactly what the known rolling-average cache
+				// behaviour predicts for a daemon restarted at h? (reference model
+				// run with that restart; anything it does not predict stays a violation)
+				if explainedByAverageCache(w, map[uint32]bool{h: true}, hh, balAt[hh]) {
+					sig = "conversion pricing depends on restarts: the rolling-average window is rebuilt by height after a restart but trimmed by count while running (ungraded block inside the window)"
+				}
+				viol = &Violation{Prop: "C09", Oracle: "restart-equals-continuous", Signature: sig,
 					Detail: fmt.Sprintf("clean restart at height %d: height %d (%d blocks later): %s%s", h, hh, hh-h, msg, explainFromCkpt(env, ref, h, hh))}
 				break
 			}
@@ -205,6 +223,19 @@ func (checkC09) Run(env *Env, sc *Scenario) (*Violation, error) {
 			env.Stats.Evaluations++
 			r := sim.NewReplica(w, env.Dir("set"))
 			r.Follow, r.PerHeight = true, true
+			balAt := map[uint32]map[factom.FAAddress]map[int]*big.Int{}
+			firstDiff := uint32(0)
+			r.OnCommit = func(hc uint32) {
+				if firstDiff != 0 {
+					return
+				}
+				if d := r.Heights[hc]; d != nil && ref.Heights[hc] != nil && d.Total != ref.Heights[hc].Total {
+					firstDiff = hc
+					if b, err := dbBalances(r.RO()); err == nil {
+						balAt[hc] = b
+					}
+				}
+			}
 			if err := r.Start(); err != nil {
 				rerr = err
 				return
@@ -243,7 +274,15 @@ func (checkC09) Run(env *Env, sc *Scenario) (*Violation, error) {
 				break
 			}
 			if hh, msg := compareHeights(ref, r.Heights); msg != "" {
-				viol = &Violation{Prop: "C09", Oracle: "restart-equals-continuous", Signature: "ledger differs after restart: " + msg,
+				sig := "ledger differs after restart: " + msg
+				rm := map[uint32]bool{}
+				for _, x := range set {
+					rm[x] = true
+				}
+				if explainedByAverageCache(w, rm, hh, balAt[hh]) {
+					sig = "conversion pricing depends on restarts: the rolling-average window is rebuilt by height after a restart but trimmed by count while running (ungraded block inside the window)"
+				}
+				viol = &Violation{Prop: "C09", Oracle: "restart-equals-continuous", Signature: sig,
 					Detail: fmt.Sprintf("restart set %v: height %d: %s", set, hh, msg)}
 				break
 			}
@@ -254,4 +293,46 @@ func (checkC09) Run(env *Env, sc *Scenario) (*Violation, error) {
 	}
 	env.Stats.Sample(map[string]interface{}{"seed": sc.Seed, "blocks": len(sc.Spec.Blocks), "avg_period": sc.Spec.Config.AveragePeriod, "plan": plan})
 	return viol, rerr
+}
+
+// explainedByAverageCache runs the reference model for a daemon that was
+// restarted after height h and reports whether the model's ledger at height
+// at equals the observed one. The model keeps the rolling-average cache the
+// way the daemon does (that is the known finding); everything else in it is
+// restart-independent, so a match means the observed divergence from the
+// never-restarted run is that known behaviour and nothing else.
+func explainedByAverageCache(w *world.World, restarts map[uint32]bool, at uint32, got map[factom.FAAddress]map[int]*big.Int) bool {
+	if got == nil || at < w.Spec.Config.Act["PIP10"] {
+		return false
+	}
+	l := model.New(w, model.Options{Restarts: restarts})
+	for l.Height < at {
+		if res := l.Step(); res.Ambiguous != "" {
+			return false
+		}
+	}
+	// and the never-restarted model must differ (otherwise nothing is explained)
+	for a, m := range l.Bal {
+		for t, v := range m {
+			g := new(big.Int)
+			if got[a] != nil && got[a][t] != nil {
+				g = got[a][t]
+			}
+			if v.Cmp(g) != 0 {
+				return false
+			}
+		}
+	}
+	for a, m := range got {
+		for t, g := range m {
+			v := new(big.Int)
+			if l.Bal[a] != nil && l.Bal[a][t] != nil {
+				v = l.Bal[a][t]
+			}
+			if v.Cmp(g) != 0 {
+				return false
+			}
+		}
+	}
+	return true
 }
